@@ -194,6 +194,24 @@ func newC16Universe(k int, special int) *c16Universe {
 		both("both:own+P2", u.pool[2].name, 2, "own-profile", "eat-profile", refmodel.P2Name, 265)
 		both("both:ext1+ext0", u.pool[1].name, 1, "psa-profile", "eat-profile", u.pool[0].name, 265)
 	}
+	// a profile member that holds the NAME of the other built-in profile while that profile's own member is null (and the
+	// other way round): whatever the outcome, it is the same on every call and under every order of the register
+	crossed := func(label string, base int, ownTag string, ownKey int64, otherName, otherTag string, otherKey int64) {
+		c, j := dispatchTokens("", base, ownTag)
+		var m map[string]any
+		json.Unmarshal(j, &m)
+		m[ownTag] = otherName
+		m[otherTag] = nil
+		j, _ = json.Marshal(m)
+		t, _ := mcbor.DecodeAll(c)
+		t.Put(mcbor.I(ownKey), mcbor.T(otherName))
+		t.Put(mcbor.I(otherKey), mcbor.Null())
+		u.names = append(u.names, label)
+		u.tokens[label] = [2][]byte{mcbor.Encode(t), j}
+		u.declares[label] = []string{refmodel.P1Name, refmodel.P2Name}
+	}
+	crossed("both:crossed:psa-profile=P2-name,eat-profile=null", 1, "psa-profile", -75000, refmodel.P2Name, "eat-profile", 265)
+	crossed("both:crossed:eat-profile=P1-name,psa-profile=null", 2, "eat-profile", 265, refmodel.P1Name, "psa-profile", -75000)
 	// learn the identity of the register map from a recorded registration
 	if instrOn {
 		rec := &sched.Recorder{}
